@@ -131,11 +131,14 @@ class Unsupported(Exception):
 class Spec(object):
     """A primitive set together with the harness' own record of what its names mean."""
 
-    def __init__(self, gp, name, in_types, ret, typed, prefix="ARG"):
+    tuple_sigs = False       # typed sets: signatures handed over as tuples instead of lists (both are sequences of types)
+
+    def __init__(self, gp, name, in_types, ret, typed, prefix="ARG", tuple_sigs=False):
         self.gp = gp
         self.typed = typed
+        self.tuple_sigs = tuple_sigs
         if typed:
-            self.pset = gp.PrimitiveSetTyped(name, in_types, ret, prefix)
+            self.pset = gp.PrimitiveSetTyped(name, tuple(in_types) if tuple_sigs else in_types, ret, prefix)
         else:
             self.pset = gp.PrimitiveSet(name, len(in_types), prefix)
         self.name = name
@@ -153,7 +156,7 @@ class Spec(object):
         f, op = FUNCS[fname]
         nm = name or fname
         if self.typed:
-            self.pset.addPrimitive(f, in_types, ret, name=nm)
+            self.pset.addPrimitive(f, tuple(in_types) if self.tuple_sigs else in_types, ret, name=nm)
         else:
             self.pset.addPrimitive(f, len(in_types) if isinstance(in_types, (list, tuple)) else in_types, name=nm)
         self.funcs[nm] = f
@@ -170,7 +173,7 @@ class Spec(object):
 
     def rawprim(self, f, in_types, ret, name, op=None):
         """typed sets only (also arity 0)"""
-        self.pset.addPrimitive(f, in_types, ret, name=name)
+        self.pset.addPrimitive(f, tuple(in_types) if self.tuple_sigs else in_types, ret, name=name)
         self.funcs[name] = f
         if op is None:
             self.zeval = False
@@ -439,9 +442,9 @@ def main(run):
             s.label += "r"
         return s
 
-    def mk_typed(nargs_int, nargs_bool, rename=None):
+    def mk_typed(nargs_int, nargs_bool, rename=None, tuples=False):
         ins = [int] * nargs_int + [bool] * nargs_bool
-        s = Spec(gp, "MAIN", ins, int, True, "IN")
+        s = Spec(gp, "MAIN", ins, int, True, "IN", tuple_sigs=tuples)
         for f in ("add", "sub", "mul", "max2"):
             s.prim(f, [int, int], int)
         s.prim("neg", [int], int)
@@ -459,7 +462,7 @@ def main(run):
         s.named(100, "hundred", int)
         s.eph("e_int", ri(-5, 5), int)
         s.eph("e_bool", rbool, bool)
-        s.label = "typed%d%d" % (nargs_int, nargs_bool)
+        s.label = "typed%d%d%s" % (nargs_int, nargs_bool, "t" if tuples else "")
         if rename:
             s.pset.renameArguments(**rename)
             s.label += "r"
@@ -936,6 +939,7 @@ def main(run):
     specs.append(mk_typed(2, 1))
     specs.append(mk_typed(1, 0, rename={"IN0": "n"}))
     specs.append(mk_typed(0, 0))
+    specs.append(mk_typed(1, 1, tuples=True))
     specs.append(mk_float(2, False))
     specs.append(mk_float(1, True))
     specs.append(mk_float(0, False))
